@@ -12,7 +12,8 @@ Oracle (from the property statement, independent of y0 and of the model; harness
       validator with TypeError / ValueError / NotImplementedError;
   (z) zero only for impossible events: when the expression is Zero() the queried event must have probability 0 in a
       positive functional SCM;
-  (v) value: the expression, evaluated on the declared domain distributions (target-compatible model, fresh mechanisms
+  (v) value (a variable whose value is None stays a free variable of the answer and is read at its base value):
+      the expression, evaluated on the declared domain distributions (target-compatible model, fresh mechanisms
       at selection-marked and policy variables, policy variables possibly cut from their parents) with the returned
       event's values, equals the target probability P*(event) (resp. P*(outcomes | conditions)) computed on the
       functional SCM by enumeration of the noise space.  Values: `-V` is the base value of V, `+V` another value.
@@ -278,8 +279,8 @@ def _atoms(vars_enc, sigma, sigma2):
     for v in vars_enc:
         _, name, star, _i, ivs = v
         name = int(name)
-        if star == "n":
-            continue
+        # a variable without a value (None) stays a free variable of the answer: the expression, read at the value v of
+        # that variable, is the probability of the event with "variable = v"; it is checked at the base value
         do = frozenset((int(z), (sigma2 if s == "p" else sigma)[int(z)]) for z, s in ivs)
         if len({z for z, _ in do}) < len(do):
             return "inconsistent-subscripts"
@@ -304,8 +305,7 @@ def _candidate_bindings(ret_event, nodes, sigma, sigma2):
     cand = {v: set() for v in nodes}
     for var in ret_event:
         _, name, star, _i, ivs = var
-        if star != "n":
-            cand[int(name)].add((sigma2 if star == "p" else sigma)[int(name)])
+        cand[int(name)].add((sigma2 if star == "p" else sigma)[int(name)])
         for z, s in ivs:
             cand[int(z)].add((sigma2 if s == "p" else sigma)[int(z)])
     free = [v for v in nodes if not cand[v]]
@@ -473,9 +473,14 @@ def run_python(case):
 
 # ------------------------------------------------------------------------------------------------ model side
 
+MODEL_READY = False
+
+
 def request(case):
     """the model decides the validators (error class) and, for accepted inputs, nothing more is compared here: the
     expression-valued part of Algorithms 2/3 is parametric in the `ctf`/`tian` families' models"""
+    if not MODEL_READY:
+        return None
     mal = case.get("malformed")
     if mal in ("tnode_in_target", "cyclic_target", "extra_vertex", "target_tag_other_graph", "bad_topo"):
         return None    # these are built on the y0 side only (the model receives the same checks through other cases)
@@ -555,7 +560,61 @@ def shrink(case):
     del key
 
 
+def signature(case):
+    """syntactic features of the queried event that the known (inherited, not small) defects of SIMPLIFY and of the
+    ctf-factor factorisation depend on (C19's open findings)"""
+    g = case["g"]
+    vars_ = (case.get("event") or []) + (case.get("outcomes") or []) + (case.get("conditions") or [])
+    di = [tuple(e) for e in g["di"]]
+    reflexive = any(any(int(z) == int(v[1]) for z, _ in v[4]) for v in vars_)
+    vals, worlds = {}, {}
+    for v in vars_:
+        vals.setdefault(int(v[1]), set()).add("m" if v[2] == "n" else v[2])
+        for z, s_ in v[4]:
+            vals.setdefault(int(z), set()).add(s_)
+        worlds.setdefault(int(v[1]), set()).add(tuple(sorted((int(z), s_) for z, s_ in v[4])))
+    two_values = any(len(x) > 1 for x in vals.values())
+    multi_world = any(len(w) > 1 for w in worlds.values())
+    literal_bound = False
+    for a in vars_:
+        for z, _ in a[4]:
+            for b in vars_:
+                if int(z) in {int(q) for q, _ in b[4]} or int(z) == int(b[1]):
+                    continue
+                if int(z) in FE.ancestors(di, {int(b[1])}):
+                    literal_bound = True
+    # a subscript that is not an ancestor of its variable is dropped by minimisation; the variable then lives in the
+    # observational world although the query names another one
+    return {"reflexive": reflexive, "two_values": two_values, "multi_world": multi_world, "literal_bound": literal_bound,
+            "has_none": any(v[2] == "n" for v in vars_)}
+
+
 def finding_key(case, res):
+    """explained failure classes get a class key (one open finding per class, see known_findings.jsonl); anything else
+    is keyed by the exact input, so an unexplained failure is always reported"""
+    fail = (res or {}).get("fail") or ""
+    sig = signature(case)
+    kind = case["kind"]
+    cls = None
+    if "after the procedure's own validation accepted" in fail:
+        if "_validate_transport_unconditional_counterfactual_query_input" in fail and kind == "cond":
+            cls = "crash:ctfTR-derived-event-rejected"
+        elif "_validate_transport_conditional_counterfactual_query_line_4_output" in fail:
+            cls = "crash:ctfTR-final-check"
+        elif "_any_variables_with_inconsistent_values" in fail and (sig["reflexive"] or sig["has_none"]):
+            cls = "crash:simplify-typeerror"
+    elif fail.startswith("returned Zero()") and sig["reflexive"]:
+        cls = "zero:reflexive"
+    elif fail.startswith("value differs"):
+        for k in ("reflexive", "two_values", "multi_world", "literal_bound"):
+            if sig[k]:
+                cls = "value:" + k
+                break
+    if cls is None and fail.startswith("value differs") and kind == "cond" and \
+            {int(v[1]) for v in case["outcomes"]} & {int(v[1]) for v in case["conditions"]}:
+        cls = "value:outcome-also-condition"
+    if cls is not None:
+        return f"{kind}:{cls}" if cls.startswith("value") or cls.startswith("zero") else cls
     c = {k: case[k] for k in ("kind", "event", "outcomes", "conditions", "domains", "malformed") if k in case}
     g = case["g"]
     c["g"] = {"nodes": sorted(G.all_nodes(g)), "di": sorted(map(list, g["di"])), "bi": sorted(sorted(e) for e in g["bi"])}
